@@ -9,7 +9,7 @@ for f in ('patch.diff', 'demo_test.go', 'notes.md'):
     shutil.copy(os.path.join(src, f), dst)
 notes = open(os.path.join(dst, 'notes.md')).read().splitlines()
 meta = {
-    "id": sid, "breaks_property": prop, "round": 3,
+    "id": sid, "breaks_property": prop, "round": int(os.environ.get("ROUND", "4")),
     "change": what, "needs_to_manifest": needs,
     "demo_dir": [l.split(':', 1)[1].strip() for l in notes if l.startswith('demo_dir:')][0],
     "demo_cmd": [l.split(':', 1)[1].strip() for l in notes if l.startswith('demo_cmd:')][0],
